@@ -240,6 +240,8 @@ class WiringMonitor(Monitor):
                 continue
             for _ in range(12 if nph == 2 else 5):
                 pairs.append((rng.choice(sts), rng.choice(sts)))
+        if not np.all(np.isfinite(u)):
+            return viol("non_finite_unitary", "U_full contains nan or inf")
         worst, wp = 0.0, None
         for x, y in pairs:
             a = real_amp(c, x, y, u)
@@ -264,7 +266,7 @@ class WiringMonitor(Monitor):
                 res = sim.simulate(lw.State(x), [lw.State(y)])
                 a = complex(res.array[0, 0])
                 b = r.amp(x, y)
-                if abs(a - b) > TOL:
+                if not abs(a - b) <= TOL:
                     return viol("simulator_amplitude",
                                 f"Simulator <{y}|U|{x}> = {a:.6g}, model "
                                 f"{b:.6g}")
